@@ -1,8 +1,9 @@
 """Native replay for C14: real scoping / ast_view functions against the ghost specification specs/scoping.py."""
 import copy
+import os
 import sys
 
-sys.path.insert(0, '/verif/native')
+sys.path.insert(0, os.path.dirname(os.path.abspath(__file__)))
 import mkmodel  # noqa: E402
 
 mkmodel.assert_tree()
